@@ -52,8 +52,8 @@ func mayWrite(f *ssa.Function, depth int, memo map[*ssa.Function]bool) bool {
 // symlink at the destination, a temporary file swept before Close - and the copy then reports success with a file
 // missing. For every call of a module function that may write, no return of a nil error lies on the non-nil edge of a
 // test of that call's error, classified or not.
-func ruleWriteSwallow(c *Ctx, rule string, pkgs []*packages.Package) {
-	c.Rule(rule, "the error of an operation that writes is never turned into success, whatever it is classified as", 50)
+func ruleWriteSwallow(c *Ctx, rule string, pkgs []*packages.Package, min int) {
+	c.Rule(rule, "the error of an operation that writes is never turned into success, whatever it is classified as", min)
 	p := c.P
 	memo := map[*ssa.Function]bool{}
 	for _, sf := range p.SSAFuncsOf(pkgs) {
